@@ -12,13 +12,17 @@ Binding A (deciding observations, the property's own oracle): every template
 elements (and mixed scalars), written to a script and executed in fresh
 processes `python -m ckl.run -s [-l] t.ckl` under 8 (thorough 32) values of
 PYTHONHASHSEED and 3 (thorough 6) construction orders of the same set/map.
-stdout (which includes the rendered result and the error text), stderr and
-exit status must be identical in all runs of a template.
+Several templates share one script (a delimiter line between them, each
+wrapped in `do ... catch all ... end`); templates about the script result or
+an uncaught error, and templates cut off by a crash of an earlier one, run
+alone.  The text a template printed (which includes rendered results and
+error messages), and for the template that ended the process also stderr and
+the exit status, must be identical in all runs.
 
 The table Site (site -> "sorted" | "raw") of the model is *derived from these
-observations* (a site is raw iff its direct template varied; a site that has
-no direct template is assumed raw, the worst case).  TLC then predicts, from
-the table, which programs (including composite ones where a raw site is
+observations* (a site is raw iff one of its direct templates varied; a site
+without a direct template is assumed raw, the worst case).  TLC then predicts
+from the table which programs (including composite ones where a raw site is
 masked by set(), sum, sorted ...) can vary; the prediction is compared with
 what was seen (disagreement = drift, never a violation).
 
@@ -55,7 +59,7 @@ def val_of(k):
 
 assert len({val_of(k) for k in range(1, 9)}) == 8 and all(101 <= val_of(k) <= 110 for k in range(1, 9))
 
-# mixed-scalar pools: (name, [source literal], [rendering in output])
+# mixed-scalar pools: [(source literal, rendering in output)]
 MIXED = {
     "mixed": [("'fig'", "fig"), ("'apple'", "apple"), ("'kiwi'", "kiwi"), ("3", "3"), ("20", "20"),
               ("100", "100"), ("1.5", "1.5"), ("-4", "-4"), ("NULL", "NULL")],
@@ -68,230 +72,253 @@ MIXED = {
 
 # ---------------------------------------------------------------- templates
 class T:
-    def __init__(self, tid, body, prog=None, site=None, pool="str", req=(), parse="tokens", n=None):
+    def __init__(self, tid, body, prog=None, site=None, pool="str", parse="tokens", n=None, solo=False):
         self.tid = tid          # template id (violation key)
         self.body = body        # source after the prelude
         self.prog = prog        # id of the model program (OrderOps!Programs) or None = oracle only
-        self.site = site        # this template is the *direct* observation of that site
+        self.site = site        # this template is a *direct* observation of that site
         self.pool = pool        # "str" | a key of MIXED
-        self.req = req          # modules required unqualified
         self.parse = parse      # "tokens" | "int"
         self.n = n              # fixed number of elements (None: 6..8)
+        self.solo = solo        # needs a script of its own (script result, uncaught error)
 
 
-LG = "def lg(x) do println(x); return x; end;\n"
-LG2 = "def lg2(x, y) do println(x); return x; end;\n"
-F = "def f(args...) args...;\n"
+PRELUDE = ("require List; require Set; require Stat; require String; require Random;\n"
+           "def lg(x) do println(x); return x; end;\n"
+           "def lg2(x, y) do println(x); return x; end;\n"
+           "def f(args...) args...;\n")
 
 
 def templates():
     ts = []
     a = ts.append
     # ---- for loops
-    a(T("for-set", "for x in s do println(x); end;", "for.set", "for.set"))
-    a(T("for-set-expr", "for x in s println(x);", "for.set"))
-    a(T("for-map-default", "for x in m do println(x); end;", "for.map.values", "for.map.values"))
-    a(T("for-map-keys", "for x in keys m do println(x); end;", "for.map.keys", "for.map.keys"))
-    a(T("for-map-values", "for x in values m do println(x); end;", "for.map.values"))
-    a(T("for-map-entries", "for x in entries m do println(x); end;", "for.map.entries", "for.map.entries"))
-    a(T("for-set-break", "for x in s do println(x); if x > 'k' then break; end;", None))
+    a(T("for-set", "for x in S do println(x); end;", "for.set", "for.set"))
+    a(T("for-set-expr", "for x in S println(x);", "for.set"))
+    a(T("for-map-default", "for x in M do println(x); end;", "for.map.values", "for.map"))
+    a(T("for-map-keys", "for x in keys M do println(x); end;", "for.map.keys", "for.map"))
+    a(T("for-map-values", "for x in values M do println(x); end;", "for.map.values", "for.map"))
+    a(T("for-map-entries", "for x in entries M do println(x); end;", "for.map.entries", "for.map"))
+    a(T("for-set-break", "for x in S do println(x); if x > 'k' then break; end;", None))
     # ---- comprehensions (all seven node kinds share getCollectionValue)
-    a(T("lcompr-set", "println([x for x in s]);", "compr.set", "compr.set"))
-    a(T("lcompr-set-if", "println([x for x in s if x != 'zz']);", "compr.set"))
-    a(T("lcompr-map-default", "println([x for x in m]);", "compr.map.entries", "compr.map.entries"))
-    a(T("lcompr-map-keys", "println([x for x in keys m]);", "compr.map.keys", "compr.map.keys"))
-    a(T("lcompr-map-values", "println([x for x in values m]);", "compr.map.values", "compr.map.values"))
-    a(T("lcompr-map-entries", "println([x for x in entries m]);", "compr.map.entries"))
-    a(T("lcompr-product-1", LG2 + "def r = [lg2(x, y) for x in s for y in ['_']];", "compr.set"))
-    a(T("lcompr-product-2", LG2 + "def r = [lg2(x, y) for y in ['_'] for x in s];", "compr.set"))
-    a(T("lcompr-product-keys", LG2 + "def r = [lg2(x, y) for x in keys m for y in ['_']];", "compr.map.keys"))
-    a(T("lcompr-parallel-1", LG2 + "def r = [lg2(x, y) for x in s also for y in range(20)];", "compr.set"))
-    a(T("lcompr-parallel-2", LG2 + "def r = [lg2(x, y) for y in range(20) also for x in s];", "compr.set"))
-    a(T("lcompr-parallel-entries", LG2 + "def r = [lg2(x, y) for x in entries m also for y in range(20)];",
+    a(T("lcompr-set", "println([x for x in S]);", "compr.set", "compr.set"))
+    a(T("lcompr-set-if", "println([x for x in S if x != 'zz']);", "compr.set"))
+    a(T("lcompr-map-default", "println([x for x in M]);", "compr.map.entries", "compr.map.entries"))
+    a(T("lcompr-map-keys", "println([x for x in keys M]);", "compr.map.keys", "compr.map.keys"))
+    a(T("lcompr-map-values", "println([x for x in values M]);", "compr.map.values", "compr.map.values"))
+    a(T("lcompr-map-entries", "println([x for x in entries M]);", "compr.map.entries", "compr.map.entries"))
+    a(T("lcompr-product-1", "def r = [lg2(x, y) for x in S for y in ['_']];", "compr.set"))
+    a(T("lcompr-product-2", "def r = [lg2(x, y) for y in ['_'] for x in S];", "compr.set"))
+    a(T("lcompr-product-keys", "def r = [lg2(x, y) for x in keys M for y in ['_']];", "compr.map.keys"))
+    a(T("lcompr-parallel-1", "def r = [lg2(x, y) for x in S also for y in range(20)];", "compr.set"))
+    a(T("lcompr-parallel-2", "def r = [lg2(x, y) for y in range(20) also for x in S];", "compr.set"))
+    a(T("lcompr-parallel-entries", "def r = [lg2(x, y) for x in entries M also for y in range(20)];",
         "compr.map.entries"))
-    a(T("scompr-set", LG + "def r = <<lg(x) for x in s>>;", "compr.set"))
-    a(T("scompr-map-keys", LG + "def r = <<lg(x) for x in keys m>>;", "compr.map.keys"))
-    a(T("scompr-map-values", LG + "def r = <<lg(x) for x in values m>>;", "compr.map.values"))
-    a(T("scompr-map-entries", LG + "def r = <<lg(x) for x in entries m>>;", "compr.map.entries"))
-    a(T("scompr-product", LG2 + "def r = <<lg2(x, y) for x in s for y in ['_']>>;", "compr.set"))
-    a(T("scompr-parallel", LG2 + "def r = <<lg2(x, y) for x in s also for y in range(20)>>;", "compr.set"))
-    a(T("scompr-result", "println(<<x + '_' for x in s>>);", None))
-    a(T("mcompr-set", LG + "def r = <<<lg(x) => 1 for x in s>>>;", "compr.set"))
-    a(T("mcompr-map-keys", LG + "def r = <<<lg(x) => 1 for x in keys m>>>;", "compr.map.keys"))
-    a(T("mcompr-map-values", LG + "def r = <<<lg(x) => 1 for x in values m>>>;", "compr.map.values"))
-    a(T("mcompr-map-entries", LG + "def r = <<<lg(x) => 1 for x in entries m>>>;", "compr.map.entries"))
-    a(T("mcompr-result", "println(<<<x => x + '_' for x in s>>>);", None))
+    a(T("scompr-set", "def r = <<lg(x) for x in S>>;", "compr.set"))
+    a(T("scompr-map-keys", "def r = <<lg(x) for x in keys M>>;", "compr.map.keys"))
+    a(T("scompr-map-values", "def r = <<lg(x) for x in values M>>;", "compr.map.values"))
+    a(T("scompr-map-entries", "def r = <<lg(x) for x in entries M>>;", "compr.map.entries"))
+    a(T("scompr-product", "def r = <<lg2(x, y) for x in S for y in ['_']>>;", "compr.set"))
+    a(T("scompr-parallel", "def r = <<lg2(x, y) for x in S also for y in range(20)>>;", "compr.set"))
+    a(T("scompr-result", "println(<<x + '_' for x in S>>);", None))
+    a(T("mcompr-set", "def r = <<<lg(x) => 1 for x in S>>>;", "compr.set"))
+    a(T("mcompr-map-keys", "def r = <<<lg(x) => 1 for x in keys M>>>;", "compr.map.keys"))
+    a(T("mcompr-map-values", "def r = <<<lg(x) => 1 for x in values M>>>;", "compr.map.values"))
+    a(T("mcompr-map-entries", "def r = <<<lg(x)[0] => 1 for x in entries M>>>;", "compr.map.entries"))
+    a(T("mcompr-result", "println(<<<x => x + '_' for x in S>>>);", None))
     # ---- conversions
-    a(T("list-of-set", "println(list(s));", "aslist.set", "aslist.set"))
-    a(T("list-of-map", "println(list(m));", "aslist.map", "aslist.map"))
-    a(T("set-of-map", "println(set(m));", "asset.map+render"))
-    a(T("list-of-set-of-map", "println(list(set(m)));", "asset.map+aslist"))
-    a(T("set-of-list-of-set", "println(set(list(s)));", "aslist.set+build+render"))
-    a(T("object-of-map", "println(object(m));", "asobject.map", "asobject.map"))
-    a(T("map-of-object-of-map", "println(map(object(m)));", "asobject.map+build+render"))
-    a(T("map-of-entries", "println(map([e for e in entries m]));", "compr.map.entries+build+render"))
-    a(T("set-of-set", "println(set(s));", "render.set"))
-    a(T("map-of-map", "println(map(m));", "render.map"))
-    a(T("list-plus-set", "println([] + s);", "aslist.set"))
-    a(T("list-minus-set", "println(list(s) - <<'zz'>>);", "aslist.set"))
+    a(T("list-of-set", "println(list(S));", "aslist.set", "aslist.set"))
+    a(T("list-of-map", "println(list(M));", "aslist.map", "aslist.map"))
+    a(T("set-of-map", "println(set(M));", "asset.map+render"))
+    a(T("list-of-set-of-map", "println(list(set(M)));", "asset.map+aslist"))
+    a(T("set-of-list-of-set", "println(set(list(S)));", "aslist.set+build+render"))
+    a(T("object-of-map", "println(object(M));", "asobject.map", "asobject.map"))
+    a(T("map-of-object-of-map", "println(map(object(M)));", "asobject.map+build+render"))
+    a(T("map-of-entries", "println(map([e for e in entries M]));", "compr.map.entries+build+render"))
+    a(T("set-of-set", "println(set(S));", "render.set"))
+    a(T("map-of-map", "println(map(M));", "render.map"))
+    a(T("list-plus-set", "println([] + S);", "aslist.set", "aslist.set"))
+    a(T("list-minus-set", "println(list(S) - <<'zz'>>);", "aslist.set"))
     # ---- spread
-    a(T("spread-call-set", F + "println(f(...s));", "spread.call.set", "spread.call.set"))
+    a(T("spread-call-set", "println(f(...S));", "spread.call.set", "spread.call.set"))
     a(T("spread-call-set-named", "def g(a, b, c, rest...) do println(a); println(b); println(c); println(rest...); end;\n"
-        "g(...s);", "spread.call.set"))
-    a(T("spread-list-set", "println([...s]);", "spread.list.set", "spread.list.set"))
-    a(T("spread-list-set-mid", "println(['_', ...s, '_']);", "spread.list.set"))
-    a(T("spread-method-set", "def o = <*g = fn(self, args...) args...*>; println(o->g(...s));", "spread.call.set"))
-    a(T("spread-call-map-positional", F + "println(f(...mi));", "spread.call.map", "spread.call.map"))
-    a(T("spread-call-map-error", F + "println(f(...m));", "spread.call.map.first"))
+        "g(...S);", "spread.call.set", "spread.call.set"))
+    a(T("spread-list-set", "println([...S]);", "spread.list.set", "spread.list.set"))
+    a(T("spread-list-set-mid", "println(['_', ...S, '_']);", "spread.list.set", "spread.list.set"))
+    a(T("spread-method-set", "def o = <*g = fn(self, args...) args...*>; println(o->g(...S));", "spread.call.set"))
+    a(T("spread-call-map-positional", "println(f(...MI));", "spread.call.map", "spread.call.map"))
+    a(T("spread-call-map-error", "println(f(...M));", "spread.call.map.first", "spread.call.map", solo=True))
     a(T("spread-call-map-named",
         "def g(apple = '', cherry = '', fig = '', kiwi = '', lemon = '', mango = '', peach = '', quince = '') "
-        "[apple, cherry, fig, kiwi, lemon, mango, peach, quince];\nprintln(g(...m));", None))
-    a(T("spread-list-map", "println([...m]);", "spread.list.map", "spread.list.map"))
-    a(T("spread-len", "println(length([...s]));", "spread.list.set+len", parse="int"))
-    a(T("spread-set-again", "println(set([...s]));", "spread.list.set+build+render"))
-    a(T("spread-sorted", "println(sorted([...s]));", "spread.list.set+sort"))
-    a(T("apply-set", F + "println(apply(f, s));", None))
+        "[apple, cherry, fig, kiwi, lemon, mango, peach, quince];\nprintln(g(...M));", None))
+    a(T("spread-list-map", "println([...M]);", "spread.list.map", "spread.list.map"))
+    a(T("spread-len", "println(length([...S]));", "spread.list.set+len", parse="int"))
+    a(T("spread-set-again", "println(set([...S]));", "spread.list.set+build+render"))
+    a(T("spread-set-spread", "def t = set([...S]); println([...t]);", "spread.list.set+build+spread"))
+    a(T("spread-sorted", "println(sorted([...S]));", "spread.list.set+sort"))
+    a(T("spread-first", "println([...S][0]);", "spread.list.set+first"))
+    a(T("apply-set", "println(apply(f, S));", "spread.call.set"))
     # ---- destructuring
-    a(T("destr-def-set", "def [a, b, c] = s; println(a); println(b); println(c);", "destr.def.set", "destr.def.set"))
-    a(T("destr-assign-set", "def a = 0; def b = 0; def c = 0; [a, b, c] = s; println(a); println(b); println(c);",
+    a(T("destr-def-set", "def [a, b, c] = S; println(a); println(b); println(c);", "destr.def.set", "destr.def.set"))
+    a(T("destr-assign-set", "def a = 0; def b = 0; def c = 0; [a, b, c] = S; println(a); println(b); println(c);",
         "destr.assign.set", "destr.assign.set"))
-    a(T("destr-for-list-of-sets", "for [a, b, c] in [s] do println(a); println(b); println(c); end;",
+    a(T("destr-for-list-of-sets", "for [a, b, c] in [S] do println(a); println(b); println(c); end;",
         "destr.for.list", "destr.for.list"))
-    a(T("destr-for-set-of-sets", "for [a, b, c] in <<s>> do println(a); println(b); println(c); end;",
+    a(T("destr-for-set-of-sets", "for [a, b, c] in <<S>> do println(a); println(b); println(c); end;",
         "destr.for.set", "destr.for.set"))
-    a(T("destr-for-map-of-sets", "for [a, b, c] in values <<<1 => s>>> do println(a); println(b); println(c); end;",
+    a(T("destr-for-map-of-sets", "for [a, b, c] in values <<<1 => S>>> do println(a); println(b); println(c); end;",
         "destr.for.map", "destr.for.map"))
-    a(T("destr-for-set-of-pairs", "for [a, b] in <<e for e in entries m>> do println(a + ' ' + b); end;",
+    a(T("destr-for-set-of-pairs", "for [a, b] in <<e for e in entries M>> do println(a + ' ' + b); end;",
         "compr.map.entries+build+for"))
-    a(T("destr-def-more", "def [a, b, c, d, e, f, g, h, i] = s; println([a, b, c, d, e, f, g, h, i]);",
-        "destr.def.set.all"))
+    a(T("destr-def-more", "def [a, b, c, d, e, u, v, w, z] = S; println([a, b, c, d, e, u, v, w, z]);",
+        "destr.def.set.all", "destr.def.set"))
     # ---- rendering
-    a(T("println-set", "println(s);", "render.set", "render.set"))
-    a(T("print-set", "print(s);", "render.set"))
-    a(T("string-set", "println(string(s));", "render.set"))
-    a(T("result-set", "s;", "render.set"))
-    a(T("println-map", "println(m);", "render.map", "render.map"))
-    a(T("print-map", "print(m);", "render.map"))
-    a(T("string-map", "println(string(m));", "render.map"))
-    a(T("result-map", "m;", "render.map"))
-    a(T("concat-set", "println('' + string(s) + string(m));", None))
-    a(T("interp-set", "println(s('{s}'));", None))
-    a(T("nested-list-of-set", "println([s, m]);", None))
-    a(T("nested-set-of-sets", "println(<< <<x, 'z'>> for x in s>>);", None))
-    a(T("nested-map-of-sets", "println(<<<x => <<x, 'z'>> for x in s>>>);", None))
-    a(T("nested-map-set-keys", "println(<<< <<x, 'z'>> => x for x in s>>>);", None))
-    a(T("nested-object", "println(<*a = s, b = m*>);", None))
-    a(T("error-value-set", "error s;", None))
-    a(T("error-value-map", "do error m; catch e println(e); end;", None))
+    a(T("println-set", "println(S);", "render.set", "render.set"))
+    a(T("print-set", "print(S);", "render.set", "render.set"))
+    a(T("string-set", "println(string(S));", "render.set", "render.set"))
+    a(T("result-set", "S;", "render.set", "render.set", solo=True))
+    a(T("println-map", "println(M);", "render.map", "render.map"))
+    a(T("print-map", "print(M);", "render.map", "render.map"))
+    a(T("string-map", "println(string(M));", "render.map", "render.map"))
+    a(T("result-map", "M;", "render.map", "render.map", solo=True))
+    a(T("concat-set", "println('' + string(S) + string(M));", None))
+    a(T("interp-set", "println(s('{S} {M}'));", None))
+    a(T("nested-list-of-set", "println([S, M]);", None))
+    a(T("nested-set-of-sets", "println(<< <<x, 'z'>> for x in S>>);", None))
+    a(T("nested-map-of-sets", "println(<<<x => <<x, 'z'>> for x in S>>>);", None))
+    a(T("nested-map-set-keys", "println(<<< <<x, 'z'>> => x for x in S>>>);", None))
+    a(T("nested-object", "println(<*a = S, b = M*>);", None))
+    a(T("error-value-set", "error S;", None, solo=True))
+    a(T("error-value-map", "error M;", None, solo=True))
     a(T("ls", "def [a, b] = [1, 2]; println(ls());", None))
     # ---- set arithmetic and natives
-    a(T("set-plus-set", "println(s + <<'zz', 'aa'>>);", None))
-    a(T("set-plus-list", "println(s + ['zz', 'aa']);", None))
-    a(T("set-plus-elem", "println(s + 'zz');", None))
-    a(T("elem-plus-set", "println('aa' + s);", None))
-    a(T("list-plus-set-2", "println(['zz'] + s);", None))
-    a(T("set-minus-set", "println(s - <<'fig', 'kiwi'>>);", None))
-    a(T("set-minus-list", "println(s - ['fig', 'kiwi']);", None))
-    a(T("set-minus-elem", "println(s - 'fig');", None))
-    a(T("list-of-sum-set", "println(list(s + <<'zz'>>));", None))
-    a(T("sum-values", "println(sum([x for x in values mn]));", "compr.map.values+sum", parse="int"))
-    a(T("sum-list-of-map", "println(sum(list(mn)));", "aslist.map+sum", parse="int"))
-    a(T("sum-set", "println(sum(set(list(mn))));", None))
-    a(T("sorted-set", "println(sorted(s));", None))
-    a(T("sorted-list-of-set", "println(sorted(list(s)));", "aslist.set+sort"))
-    a(T("sorted-desc", "println(sorted(list(s), cmp = fn(a, b) compare(b, a)));", None))
-    a(T("length-set", "println(length(s) + length(m));", None))
-    a(T("append-remove", "def t = set(s); append(t, 'zz'); remove(t, 'fig'); println(t); println(list(t));", None))
-    a(T("put-remove-map", "def t = <<<>>>; for e in entries m do put(t, e[0], e[1]); end; remove(t, 'fig'); "
+    a(T("set-plus-set", "println(S + <<'zz', 'aa'>>); println(list(S + <<'zz', 'aa'>>));", None))
+    a(T("set-plus-list", "println(S + ['zz', 'aa']); println(list(S + ['zz', 'aa']));", None))
+    a(T("set-plus-elem", "println(S + 'zz'); println(list(S + 'zz'));", None))
+    a(T("elem-plus-set", "println('aa' + S); println(list('aa' + S));", None))
+    a(T("list-plus-set-2", "println(['zz'] + S);", None))
+    a(T("set-minus-set", "println(S - <<'fig', 'kiwi'>>); println(list(S - <<'fig', 'kiwi'>>));", None))
+    a(T("set-minus-list", "println(S - ['fig', 'kiwi']); println(list(S - ['fig', 'kiwi']));", None))
+    a(T("set-minus-elem", "println(S - 'fig'); println(list(S - 'fig'));", None))
+    a(T("sum-values", "println(sum([x for x in values MN]));", "compr.map.values+sum", parse="int"))
+    a(T("sum-list-of-map", "println(sum(list(MN)));", "aslist.map+sum", parse="int"))
+    a(T("sum-set", "println(sum(set(list(MN))));", None))
+    a(T("sorted-set", "println(sorted(S));", None))
+    a(T("sorted-list-of-set", "println(sorted(list(S)));", "aslist.set+sort"))
+    a(T("sorted-desc", "println(sorted(list(S), cmp = fn(a, b) compare(b, a)));", None))
+    a(T("length-set", "println(length(S) + length(M));", None))
+    a(T("append-remove", "def t = <<x for x in S>>; append(t, 'zz'); remove(t, 'fig'); println(t); println(list(t));", None))
+    a(T("put-remove-map", "def t = <<<>>>; for e in entries M do put(t, e[0], e[1]); end; remove(t, 'fig'); "
         "println(t); println([k for k in keys t]);", None))
-    a(T("zip-list", "println(zip(list(s), list(m)));", None))
-    a(T("zip-map", "println(zip_map(list(s), list(m)));", None))
-    a(T("equals-compare", "println([s == set(list(s)), compare(s, s), s < m, m == map(m)]);", None))
-    a(T("in-set", "println(['fig' in s, 'zz' in s, 'fig' in m, contains(s, 'fig')]);", None))
-    a(T("first-index", "println(list(s)[0]); println([...s][0]);", "spread.list.set+first2"))
-    a(T("pipe-set", "s !> list() !> println();", "aslist.set"))
+    a(T("zip-list", "println(zip(list(S), list(M)));", None))
+    a(T("zip-map", "println(zip_map(list(S), list(M)));", None))
+    a(T("equals-compare", "println([S == set(list(S)), compare(S, S), S < M, M == map(M)]);", None))
+    a(T("in-set", "println(['fig' in S, 'zz' in S, 'fig' in M, contains(S, 'fig')]);", None))
+    a(T("pipe-set", "S !> list() !> println();", "aslist.set"))
     # ---- bundled modules
-    for fn_, arg in [("union", "s, <<'zz', 'aa'>>"), ("union", "list(s), s"), ("intersection", "s, <<'fig', 'kiwi', 'zz'>>"),
-                     ("diff", "s, <<'fig', 'kiwi'>>"), ("symmetric_diff", "s, <<'fig', 'kiwi', 'zz'>>")]:
-        k = "set-" + fn_ + ("-list" if "list(" in arg else "")
-        a(T(k, f"println({fn_}({arg})); println(list({fn_}({arg})));", None, req=("Set",)))
     for name, call in [
-        ("first", "first(s)"), ("first-n", "first_n(s, 3)"), ("last", "last(s)"), ("last-n", "last_n(s, 3)"),
-        ("rest", "rest(s)"), ("reverse", "reverse(s)"), ("reverse-list", "reverse(list(s))"),
-        ("reduce", "reduce(s, fn(a, b) a + b)"), ("reduce-list", "reduce(list(s), fn(a, b) a + b)"),
-        ("grep", "grep(s, //e//)"), ("map-list", "map_list(s, fn(x) x + '_')"), ("unique", "unique(s)"),
-        ("unique-list", "unique(list(s) + list(s))"), ("filter", "filter(s, fn(x) x > 'c')"),
-        ("append-all", "append_all([], s)"), ("append-all-set", "list(append_all(<<>>, s))"),
-        ("append-all-map", "append_all([], m)"),
-        ("grouped", "grouped(list(s), key = fn(x) length(x))"), ("for-each", "for_each(s, println)"),
-        ("flatten", "flatten([s, [s]])"), ("flatten-set", "flatten(<<list(s), ['zz']>>)"),
-        ("prod", "prod(list(mn))"),
+        ("union", "Set->union(S, <<'zz', 'aa'>>)"), ("union-list", "Set->union(list(S), S)"),
+        ("intersection", "Set->intersection(S, <<'fig', 'kiwi', 'zz'>>)"), ("diff", "Set->diff(S, <<'fig', 'kiwi'>>)"),
+        ("symmetric-diff", "Set->symmetric_diff(S, <<'fig', 'kiwi', 'zz'>>)"),
     ]:
-        a(T("list-" + name, f"println({call});", None, req=("List",)))
-    a(T("list-permutations", "println(permutations(list(s)));", None, req=("List",), n=3))
+        a(T("set-" + name, f"println({call}); println(list({call}));", None))
     for name, call in [
-        ("min", "min(list(s))"), ("max", "max(list(s))"), ("min-set", "min(s)"), ("max-key", "max(list(s), key = fn(x) length(x))"),
-        ("any", "any(s, fn(x) x == 'fig')"), ("all", "all(s, fn(x) x > 'a')"), ("pairs", "pairs(list(s))"),
-        ("enumerate-map", "enumerate(m)"), ("enumerate-set", "enumerate(s)"), ("enumerate-list", "enumerate(list(s))"),
-        ("count", "count(m, 'alpha')"), ("chunks", "chunks(list(s), 3)"), ("label-data", "label_data(list(s), list(m))"),
-        ("map-get", "map_get(m, 'fig', 'none')"), ("map-get-pattern", "map_get_pattern(m, 'xfigx', 'none')"),
-        ("sprintf", "sprintf('{0} {1}', s, m)"), ("unwords", "unwords(list(s))"), ("unlines", "unlines(list(s))"),
+        ("first", "List->first(S)"), ("first-list", "List->first(list(S))"), ("first-n", "List->first_n(list(S), 3)"),
+        ("last", "List->last(list(S))"), ("last-n", "List->last_n(list(S), 3)"), ("rest", "List->rest(list(S))"),
+        ("reverse", "List->reverse(S)"), ("reverse-list", "List->reverse(list(S))"),
+        ("reduce", "List->reduce(S, fn(a, b) a + b)"), ("reduce-list", "List->reduce(list(S), fn(a, b) a + b)"),
+        ("grep", "List->grep(S, //e//)"), ("map-list", "List->map_list(S, fn(x) x + '_')"), ("unique", "List->unique(S)"),
+        ("unique-list", "List->unique(list(S) + list(S))"), ("filter", "List->filter(S, fn(x) x > 'c')"),
+        ("append-all", "List->append_all([], S)"), ("append-all-set", "list(List->append_all(<<>>, S))"),
+        ("append-all-map", "List->append_all([], M)"),
+        ("grouped", "List->grouped(list(S), key = fn(x) length(x))"), ("for-each", "List->for_each(S, println)"),
+        ("flatten", "List->flatten([S, [S]])"), ("flatten-set", "List->flatten(<<list(S), ['zz']>>)"),
+        ("prod", "List->prod(list(MN))"), ("contains", "List->contains(S, 'fig')"), ("find", "List->find(list(S), 'fig')"),
+    ]:
+        a(T("list-" + name, f"println({call});", None))
+    a(T("list-permutations", "println(List->permutations(list(S)));", None, n=3))
+    for name, call in [
+        ("min", "min(list(S))"), ("max", "max(list(S))"), ("min-set", "min(S)"), ("max-key", "max(list(S), key = fn(x) length(x))"),
+        ("any", "any(S, fn(x) x == 'fig')"), ("all", "all(S, fn(x) x > 'a')"), ("pairs", "pairs(list(S))"),
+        ("enumerate-map", "enumerate(M)"), ("enumerate-set", "enumerate(S)"), ("enumerate-list", "enumerate(list(S))"),
+        ("enumerate-object", "enumerate(object(M))"),
+        ("count", "count(M, 'alpha')"), ("count-set", "count(S, 'fig')"), ("chunks", "chunks(list(S), 3)"),
+        ("label-data", "label_data(list(S), list(M))"),
+        ("map-get", "map_get(M, 'fig', 'none')"), ("map-get-pattern", "map_get_pattern(M, 'xfigx', 'none')"),
+        ("sprintf", "sprintf('{0} {1}', S, M)"), ("unwords", "unwords(list(S))"), ("unlines", "unlines(list(S))"),
+        ("substitute", "substitute(list(S), 1, S)"), ("if-empty", "if_empty(S, M)"), ("type", "[type(S), type(M)]"),
+        ("range-len", "[list(S)[i] for i in range(length(S))]"),
     ]:
         a(T("core-" + name, f"println({call});", None))
-    a(T("string-join", "println(join(s, ','));", None, req=("String",)))
-    a(T("string-join-list", "println(join(list(s), ','));", "aslist.set", req=("String",)))
-    a(T("string-q", "println(q(list(s)));", None, req=("String",)))
-    for name, call in [("mean", "mean(list(mn))"), ("median", "median(list(mn))"), ("median-set", "median(set(list(mn)))"),
-                       ("median-low", "median_low(list(mn))"), ("median-high", "median_high(list(mn))")]:
-        a(T("stat-" + name, f"println({call});", None, req=("Stat",)))
+    a(T("string-join", "println(String->join(S, ','));", None))
+    a(T("string-join-list", "println(String->join(list(S), ','));", "aslist.set"))
+    a(T("string-q", "println(String->q(list(S)));", None))
+    for name, call in [("mean", "Stat->mean(list(MN))"), ("median", "Stat->median(list(MN))"),
+                       ("median-set", "Stat->median(set(list(MN)))"), ("median-low", "Stat->median_low(list(MN))"),
+                       ("median-high", "Stat->median_high(list(MN))")]:
+        a(T("stat-" + name, f"println({call});", None))
     # ---- random numbers: same seed, same sequence, in every process
-    a(T("random-seeded", "set_seed(7); println([random(1000) for i in range(10)]); println(random() < 2);", None,
-        req=("Random",)))
-    a(T("random-choice", "set_seed(11); println([choice(s) for i in range(6)]); println(choices(s, 4)); "
-        "println(sample(s, 4)); println(sample(list(m), 3));", None, req=("Random",)))
+    a(T("random-seeded", "Random->set_seed(7); println([Random->random(1000) for i in range(10)]); "
+        "println(Random->random() < 2);", None))
+    a(T("random-choice", "Random->set_seed(11); println([Random->choice(S) for i in range(6)]); "
+        "println(Random->choices(S, 4)); println(Random->sample(S, 4)); println(Random->sample(list(M), 3));", None))
     # ---- mixed scalars (strings hash by seed, ints and NULL do not; the order is the language's own `<`)
-    for pool in MIXED:
-        p = pool
-        a(T(p + "-println-set", "println(s);", "render.set", pool=p))
-        a(T(p + "-for-set", "for x in s do println(x); end;", "for.set", pool=p))
-        a(T(p + "-list-of-set", "println(list(s));", "aslist.set", pool=p))
-        a(T(p + "-spread-list-set", "println([...s]);", "spread.list.set", pool=p))
-        a(T(p + "-destr-def-set", "def [a, b, c] = s; println(a); println(b); println(c);", "destr.def.set", pool=p))
-        a(T(p + "-lcompr-set", "println([x for x in s]);", "compr.set", pool=p))
-        a(T(p + "-map-keys", "def t = <<<x => 1 for x in s>>>; println(t); println([k for k in keys t]);", None, pool=p))
-        a(T(p + "-sorted", "println(sorted(list(s)));", None, pool=p))
+    for p in MIXED:
+        a(T(p + "-println-set", "println(S);", "render.set", pool=p))
+        a(T(p + "-for-set", "for x in S do println([x]); end;", "for.set", pool=p))
+        a(T(p + "-list-of-set", "println(list(S));", "aslist.set", pool=p))
+        a(T(p + "-spread-list-set", "println([...S]);", "spread.list.set", pool=p))
+        a(T(p + "-spread-call-set", "println(f(...S));", "spread.call.set", pool=p))
+        a(T(p + "-destr-def-set", "def [a, b, c] = S; println([a, b, c]);", "destr.def.set", pool=p))
+        a(T(p + "-lcompr-set", "println([x for x in S]);", "compr.set", pool=p))
+        a(T(p + "-map-keys", "def t = <<<x => 1 for x in S>>>; println(t); println([k for k in keys t]); "
+            "for k in keys t do println([k]); end;", None, pool=p))
+        a(T(p + "-sorted", "println(sorted(list(S)));", None, pool=p))
+        a(T(p + "-set-plus", "println(S + <<'zz'>>); println(S - <<'fig'>>);", None, pool=p))
     ids = [t.tid for t in ts]
     assert len(ids) == len(set(ids)), [i for i in ids if ids.count(i) > 1]
     return ts
 
 
-# ---------------------------------------------------------------- instances
-class Instance:
-    """One template with concrete elements and its construction orders."""
+# ---------------------------------------------------------------- batches
+class Batch:
+    """Templates that share one script: the same elements, the same
+    construction orders, one process per (order, hash seed, mode)."""
 
-    def __init__(self, t, elems, orders, tokens, rankable):
-        self.t = t
+    def __init__(self, bid, ts, pool, elems, orders, tokens, rankable, solo=False):
+        self.bid = bid
+        self.ts = ts
+        self.pool = pool
         self.elems = elems          # ranks of the base elements
-        self.orders = orders        # list of (name, [rank, ...]) construction orders
+        self.orders = orders        # [(name, [rank or pool index, ...])] construction orders
         self.tokens = tokens        # rendered text -> int token
-        self.rankable = rankable    # False: the language's order on this pool is not a strict total order
+        self.rankable = rankable    # False: the language's `<` is not a strict total order on this pool
+        self.solo = solo
+
+    def prelude(self, order):
+        lines = [PRELUDE.rstrip("\n")]
+        if self.pool == "str":
+            lines.append("def S = <<" + ", ".join(f"'{KEYW[r - 1]}'" for r in order) + ">>;")
+            lines.append("def M = <<<" + ", ".join(f"'{KEYW[r - 1]}' => '{VALW[val_of(r) - 101]}'" for r in order) + ">>>;")
+            lines.append("def MI = <<<" + ", ".join(f"{r * 10} => '{VALW[val_of(r) - 101]}'" for r in order) + ">>>;")
+            lines.append("def MN = <<<" + ", ".join(f"'{KEYW[r - 1]}' => {val_of(r)}" for r in order) + ">>>;")
+        else:
+            pool = MIXED[self.pool]
+            lines.append("def S = <<" + ", ".join(pool[r][0] for r in order) + ">>;")
+        return "\n".join(lines) + "\n"
 
     def script(self, order):
-        t = self.t
-        lines = []
-        for mod in t.req:
-            lines.append(f"require {mod} unqualified;")
-        if t.pool == "str":
-            ks = [KEYW[r - 1] for r in order]
-            lines.append("def s = <<" + ", ".join(f"'{k}'" for k in ks) + ">>;")
-            lines.append("def m = <<<" + ", ".join(f"'{KEYW[r - 1]}' => '{VALW[val_of(r) - 101]}'" for r in order) + ">>>;")
-            lines.append("def mi = <<<" + ", ".join(f"{r * 10} => '{VALW[val_of(r) - 101]}'" for r in order) + ">>>;")
-            lines.append("def mn = <<<" + ", ".join(f"'{KEYW[r - 1]}' => {val_of(r)}" for r in order) + ">>>;")
+        out = [self.prelude(order)]
+        if self.solo:
+            out.append(self.ts[0].body + "\n")
         else:
-            pool = MIXED[t.pool]
-            lines.append("def s = <<" + ", ".join(pool[r][0] for r in order) + ">>;")
-        lines.append(t.body)
-        return "\n".join(lines) + "\n"
+            for t in self.ts:
+                out.append(f"println(''); println('@@T {t.tid}');\ndo\n{t.body}\ncatch all println('@@CAUGHT');\nend;\n")
+            out.append("println(''); println('@@END');\n")
+        return "".join(out)
+
+    def solo_of(self, t):
+        return Batch(f"{self.bid}/{t.tid}", [t], self.pool, self.elems, self.orders, self.tokens, self.rankable, True)
 
 
 _TOTAL = {}
@@ -308,7 +335,7 @@ def mixed_ranks(pool):
     it = Interpreter(True, False)
     lits = [x[0] for x in MIXED[pool]]
     n = len(lits)
-    lt = [[it.interpret(f"{lits[i]} < {lits[j]}", "c12").value for j in range(n)] for i in range(n)]
+    lt = [[bool(it.interpret(f"{lits[i]} < {lits[j]}", "c12").value) for j in range(n)] for i in range(n)]
     ok = all(not lt[i][i] for i in range(n))
     ok = ok and all(lt[i][j] != lt[j][i] for i in range(n) for j in range(n) if i != j)
     ok = ok and all(not (lt[i][j] and lt[j][k]) or lt[i][k] for i in range(n) for j in range(n) for k in range(n))
@@ -319,51 +346,73 @@ def mixed_ranks(pool):
     return res
 
 
-def instantiate(t, rng, norders):
-    if t.pool == "str":
-        n = t.n or rng.choice([6, 7, 8])
-        elems = sorted(rng.sample(range(1, 9), n))
-        tokens = {KEYW[r - 1]: r for r in elems}
-        tokens.update({VALW[val_of(r) - 101]: val_of(r) for r in elems})
-        base = elems
-        rankable = True
-    else:
-        pool = MIXED[t.pool]
-        ranks = mixed_ranks(t.pool)
-        base = list(range(len(pool)))           # indices into the pool
-        rankable = ranks is not None
-        tokens = {pool[i][1]: (ranks[i] if ranks else i + 1) for i in base}
-        elems = sorted(tokens.values())
+def orders_of(base, rng, norders):
     orders = [("asc", sorted(base)), ("desc", sorted(base, reverse=True))]
     seen = {tuple(o) for _, o in orders}
     k = 0
     while len(orders) < norders:
-        o = base[:]
+        o = list(base)
         rng.shuffle(o)
         if tuple(o) not in seen:
             seen.add(tuple(o))
             orders.append((f"shuf{k}", o))
             k += 1
-    return Instance(t, elems, orders, tokens, rankable)
+    return orders[:norders]
+
+
+def make_batch(bid, ts, pool, rng, norders, n=None):
+    if pool == "str":
+        n = n or rng.choice([6, 7, 8])
+        elems = sorted(rng.sample(range(1, 9), n))
+        tokens = {KEYW[r - 1]: r for r in elems}
+        tokens.update({VALW[val_of(r) - 101]: val_of(r) for r in elems})
+        return Batch(bid, ts, pool, elems, orders_of(elems, rng, norders), tokens, True)
+    pl = MIXED[pool]
+    ranks = mixed_ranks(pool)
+    base = list(range(len(pl)))                       # indices into the pool
+    tokens = {pl[i][1]: (ranks[i] if ranks else i + 1) for i in base}
+    return Batch(bid, ts, pool, sorted(tokens.values()), orders_of(base, rng, norders), tokens, ranks is not None)
+
+
+def make_batches(ts, rng, norders, nstr, reps):
+    """Group the templates: string-pool templates into nstr scripts per
+    repetition (each with its own element subset), one script per mixed pool,
+    solo templates alone."""
+    out = []
+    for rep in range(reps):
+        strs = [t for t in ts if t.pool == "str" and not t.solo and not t.n]
+        groups = [strs[i::nstr] for i in range(nstr)]
+        for gi, g in enumerate(groups):
+            out.append(make_batch(f"r{rep}b{gi}", g, "str", rng, norders, n=(6, 7, 8)[(gi + rep) % 3]))
+        for t in ts:
+            if t.pool == "str" and (t.solo or t.n):
+                b = make_batch(f"r{rep}s-{t.tid}", [t], "str", rng, norders, n=t.n)
+                b.solo = t.solo
+                out.append(b)
+        if rep == 0:
+            for p in MIXED:
+                g = [t for t in ts if t.pool == p]
+                out.append(make_batch(f"r{rep}m-{p}", g, p, rng, norders))
+    return out
 
 
 _TOKEN_RE = {}
 
 
-def tokenize(inst, text):
-    key = tuple(sorted(inst.tokens))
+def tokenize(tokens, text):
+    key = tuple(sorted(tokens))
     rx = _TOKEN_RE.get(key)
     if rx is None:
-        alts = sorted(inst.tokens, key=lambda s: (-len(s), s))
+        alts = sorted(tokens, key=lambda s: (-len(s), s))
         rx = re.compile(r"(?<![\w.\-])(?:" + "|".join(re.escape(a_) for a_ in alts) + r")(?![\w.])")
         _TOKEN_RE[key] = rx
-    return [inst.tokens[m.group(0)] for m in rx.finditer(text)]
+    return [tokens[m.group(0)] for m in rx.finditer(text)]
 
 
 # ---------------------------------------------------------------- execution
-def run_script(workdir, seed, legacy, repo=REPO, timeout=120):
+def run_script(workdir, seed, legacy, timeout=300):
     env = dict(os.environ)
-    env["PYTHONPATH"] = os.path.join(repo, "src")
+    env["PYTHONPATH"] = os.path.join(REPO, "src")
     env["PYTHONHASHSEED"] = str(seed)
     env.pop("PYTHONSTARTUP", None)
     cmd = [PY, "-m", "ckl.run", "-s"] + (["-l"] if legacy else []) + ["t.ckl"]
@@ -378,21 +427,21 @@ def run_script(workdir, seed, legacy, repo=REPO, timeout=120):
     return None
 
 
-def execute(instances, seeds, legacy_seeds, workers=16):
-    """-> {(tid, legacy): {(order name, seed): (rc, out, err)}}"""
+def execute(batches, seeds, legacy_seeds, workers=16):
+    """-> {(bid, legacy): {(order name, seed): (rc, out, err)}}, number of processes"""
     root = tempfile.mkdtemp(prefix="c12-")
     try:
         jobs = []
-        for inst in instances:
-            for oname, order in inst.orders:
-                d = os.path.join(root, inst.t.tid, oname)
+        for bi, b in enumerate(batches):
+            for oname, order in b.orders:
+                d = os.path.join(root, str(bi), oname)
                 os.makedirs(d)
                 with open(os.path.join(d, "t.ckl"), "w", encoding="utf-8") as f:
-                    f.write(inst.script(order))
+                    f.write(b.script(order))
                 for sd in seeds:
-                    jobs.append((inst.t.tid, False, oname, sd, d))
+                    jobs.append((b.bid, False, oname, sd, d))
                 for sd in legacy_seeds:
-                    jobs.append((inst.t.tid, True, oname, sd, d))
+                    jobs.append((b.bid, True, oname, sd, d))
         res = {}
         with ThreadPoolExecutor(max_workers=workers) as ex:
             outs = ex.map(lambda j: run_script(j[4], j[3], j[1]), jobs)
@@ -401,6 +450,74 @@ def execute(instances, seeds, legacy_seeds, workers=16):
         return res, len(jobs)
     finally:
         shutil.rmtree(root, ignore_errors=True)
+
+
+_MARK = re.compile(r"^@@(T [^\n]*|END)\n", re.M)
+
+
+def split_sections(b, o):
+    """One run of a batch -> {tid: (text, stderr, rc)} for the templates whose
+    section is complete or ended the process; the others are missing."""
+    rc, out, err = o
+    if b.solo:
+        return {b.ts[0].tid: (out, err, rc)}
+    marks = list(_MARK.finditer(out))
+    res = {}
+    for i, m in enumerate(marks):
+        name = m.group(1)
+        if name == "END":
+            continue
+        tid = name[2:]
+        last = i + 1 >= len(marks)
+        text = out[m.end():] if last else out[m.end():marks[i + 1].start()]
+        if not last:
+            if text.endswith("\n"):
+                text = text[:-1]            # the println('') in front of the next marker
+            res[tid] = (text, "", 0)
+        else:
+            res[tid] = (text, err, rc)      # the process ended inside this section
+    return res
+
+
+def observe(batches, seeds, legacy_seeds):
+    """Run everything; -> {(tid, bid, legacy): {(order, seed): (text, err, rc)}},
+    {(tid, bid): batch}, processes"""
+    results, nproc = execute(batches, seeds, legacy_seeds)
+    by_bid = {b.bid: b for b in batches}
+    obs = {}
+    owner = {}
+    retry = {}
+    for (bid, legacy), runs in results.items():
+        b = by_bid[bid]
+        want = [t.tid for t in b.ts]
+        for rk, o in runs.items():
+            secs = split_sections(b, o)
+            for tid in want:
+                if tid in secs:
+                    obs.setdefault((tid, bid, legacy), {})[rk] = secs[tid]
+                else:
+                    retry[(tid, bid)] = True
+    # templates hidden by a crash of an earlier one: run them alone
+    if retry:
+        solos = []
+        for (tid, bid) in sorted(retry):
+            b = by_bid[bid]
+            t = [t for t in b.ts if t.tid == tid][0]
+            for legacy in (False, True):
+                obs.pop((tid, bid, legacy), None)
+            solos.append(b.solo_of(t))
+        r2, n2 = execute(solos, seeds, legacy_seeds)
+        nproc += n2
+        for sb in solos:
+            for legacy in (False, True):
+                for rk, o in r2.get((sb.bid, legacy), {}).items():
+                    obs.setdefault((sb.ts[0].tid, sb.bid, legacy), {})[rk] = (o[1], o[2], o[0])
+            owner[(sb.ts[0].tid, sb.bid)] = sb
+    for b in batches:
+        for t in b.ts:
+            if (t.tid, b.bid) not in retry:
+                owner[(t.tid, b.bid)] = b
+    return obs, owner, nproc, sorted(t for t, _ in retry)
 
 
 # ---------------------------------------------------------------- the model
@@ -412,12 +529,14 @@ def tlc_programs(run):
     progs = res.records("PROGS")
     if not progs:
         raise MachineryError("Order.tla exported no program table")
+    if res.records("VARY"):
+        raise MachineryError("Order.tla: an observation varies although every site is sorted")
     return {p["id"]: p for p in progs[0]}
 
 
 def tlc_predict(run, table, label):
-    """Order.tla with a given Site table -> set of program ids whose
-    observation can differ from the sorted one, with a witness each."""
+    """Order.tla with a given Site table -> {program id: witness} for the
+    programs whose observation can differ from the sorted one."""
     d = tempfile.mkdtemp(prefix="c12-site-")
     path = os.path.join(d, "site.json")
     try:
@@ -429,7 +548,8 @@ def tlc_predict(run, table, label):
     run.add_tlc(res, label)
     vary = {}
     for v in res.records("VARY"):
-        vary.setdefault(v["prog"], v)
+        if v["prog"] not in vary or len(v["ord"]) < len(vary[v["prog"]]["ord"]):
+            vary[v["prog"]] = v
     return vary
 
 
@@ -451,69 +571,72 @@ def validate_traces(run, lines):
 
 
 # ---------------------------------------------------------------- verdicts
-def observation(inst, o):
-    """(rc, stdout, stderr) -> int sequence for the trace spec, or None."""
-    rc, out, err = o
-    if inst.t.parse == "int":
-        s = out.strip()
-        return [int(s)] if re.fullmatch(r"-?\d+", s) else None
-    return tokenize(inst, out)
+def to_ints(b, t, o):
+    """(text, stderr, rc) -> int sequence for the trace spec."""
+    text = o[0]
+    if t.parse == "int":
+        s = text.strip()
+        return [int(s)] if re.fullmatch(r"\d{1,9}", s) else [-1]
+    return tokenize(b.tokens, text)
 
 
-def judge(run, instances, results, progs, seeds_desc):
-    """Apply both oracles; returns statistics."""
-    by_tid = {i.t.tid: i for i in instances}
-    varying = {}          # tid -> {legacy: n distinct}
+def judge(run, obs, owner):
+    """Apply both oracles (identical outcomes; sorted enumeration)."""
+    varying = {}          # tid -> [(bid, legacy, distinct)]
     trace_lines = []
     trace_meta = []
-    for (tid, legacy), obs in sorted(results.items()):
-        inst = by_tid[tid]
+    for (tid, bid, legacy), runs in sorted(obs.items()):
+        b = owner[(tid, bid)]
+        t = [t for t in b.ts if t.tid == tid][0]
         distinct = {}
-        for (oname, sd), o in sorted(obs.items()):
-            distinct.setdefault(o, []).append((oname, sd))
+        for rk, o in sorted(runs.items()):
+            distinct.setdefault(o, []).append(rk)
         if len(distinct) > 1:
-            varying.setdefault(tid, {})[legacy] = distinct
-        if inst.t.prog is not None and inst.rankable:
+            varying.setdefault(tid, []).append((b, legacy, distinct))
+        if t.prog is not None and b.rankable:
             for o, where in distinct.items():
-                seq = observation(inst, o)
-                trace_lines.append({"prog": inst.t.prog, "elems": inst.elems,
-                                    "obs": seq if seq is not None else [-1], "n": len(where)})
-                trace_meta.append((tid, legacy, o, where))
+                if o[1].strip() or o[2] != 0:
+                    # the interpreter itself failed (host exception): not an enumeration order; C13's subject
+                    run.drift("template-ends-in-host-exception", {"template": tid, "stderr": o[1].strip().splitlines()[-1:]})
+                    continue
+                trace_lines.append({"prog": t.prog, "elems": b.elems, "obs": to_ints(b, t, o), "n": len(where)})
+                trace_meta.append((tid, b, legacy, o, where))
     bad = validate_traces(run, trace_lines) if trace_lines else {}
     unsorted = {}
-    for k, b in bad.items():
-        tid, legacy, o, where = trace_meta[k]
-        unsorted.setdefault(tid, []).append((legacy, o, where, b, trace_lines[k]))
+    for k, bd in sorted(bad.items()):
+        tid, b, legacy, o, where = trace_meta[k]
+        unsorted.setdefault(tid, []).append((b, legacy, o, where, bd, trace_lines[k]))
     for tid in sorted(set(varying) | set(unsorted)):
-        inst = by_tid[tid]
+        b = (varying.get(tid) or unsorted.get(tid))[0][0]
+        t = [t for t in b.ts if t.tid == tid][0]
         parts = []
-        case = {"kind": "template", "tid": tid, "pool": inst.t.pool, "elems": inst.elems,
-                "orders": inst.orders, "body": inst.t.body, "scripts": {on: inst.script(o) for on, o in inst.orders},
-                "runs": []}
+        case = {"kind": "template", "tid": tid, "pool": b.pool, "elems": b.elems, "orders": b.orders,
+                "body": t.body, "prog": t.prog, "parse": t.parse, "runs": []}
         cat = "varies" if tid in varying else "unsorted"
         if tid in varying:
-            for legacy, distinct in varying[tid].items():
-                ex = sorted(distinct.items(), key=lambda kv: -len(kv[1]))
-                a_, b_ = ex[0], ex[1]
-                parts.append(f"{len(distinct)} different outcomes over {sum(len(w) for w in distinct.values())} runs"
-                             f"{' (legacy)' if legacy else ''}: order={a_[1][0][0]} PYTHONHASHSEED={a_[1][0][1]} -> "
-                             f"{_short(a_[0])} but order={b_[1][0][0]} PYTHONHASHSEED={b_[1][0][1]} -> {_short(b_[0])}")
-                case["runs"] += [{"legacy": legacy, "order": a_[1][0][0], "seed": a_[1][0][1]},
-                                 {"legacy": legacy, "order": b_[1][0][0], "seed": b_[1][0][1]}]
+            b, legacy, distinct = varying[tid][0]
+            ex = sorted(distinct.items(), key=lambda kv: (-len(kv[1]), kv[1]))
+            x, y = ex[0], ex[1]
+            parts.append(f"{len(distinct)} different outcomes in {sum(len(w) for w in distinct.values())} runs"
+                         f"{' (legacy)' if legacy else ''}: order={x[1][0][0]} PYTHONHASHSEED={x[1][0][1]} -> "
+                         f"{_short(x[0])} but order={y[1][0][0]} PYTHONHASHSEED={y[1][0][1]} -> {_short(y[0])}")
+            case["runs"] += [{"legacy": legacy, "order": x[1][0][0], "seed": x[1][0][1]},
+                             {"legacy": legacy, "order": y[1][0][0], "seed": y[1][0][1]}]
         if tid in unsorted:
-            legacy, o, where, b, line = unsorted[tid][0]
-            parts.append(f"observation {line['obs']} is not the sorted enumeration the model predicts "
-                         f"({b['want']}) for program {inst.t.prog}: order={where[0][0]} PYTHONHASHSEED={where[0][1]} -> {_short(o)}")
+            b, legacy, o, where, bd, line = unsorted[tid][0]
+            parts.append(f"observation {line['obs']} is not the sorted enumeration {bd['want']} (program {t.prog}): "
+                         f"order={where[0][0]} PYTHONHASHSEED={where[0][1]} -> {_short(o)}")
             case["runs"].append({"legacy": legacy, "order": where[0][0], "seed": where[0][1]})
-        run.violation(tid, f"{cat}: `{inst.t.body.splitlines()[-1]}` " + "; ".join(parts), case)
+        case["scripts"] = {on: b.solo_of(t).script(o) for on, o in b.orders}
+        run.violation(tid, f"{cat}: `{t.body.splitlines()[-1]}` " + "; ".join(parts), case)
     return varying, unsorted, len(trace_lines)
 
 
 def _short(o):
-    rc, out, err = o
-    s = out.strip().replace("\n", " | ")
-    if len(s) > 150:
-        s = s[:150] + "..."
+    text, err, rc = o
+    s = text.strip().replace("\n", " | ")
+    if len(s) > 140:
+        s = s[:140] + "..."
     if err.strip():
         s += " [stderr: " + err.strip().splitlines()[-1][:100] + "]"
     return repr(s)
@@ -525,24 +648,16 @@ def run(run):
     seeds = list(range(8)) if quick else list(range(32))
     legacy_seeds = [0, 5] if quick else list(range(8))
     norders = 3 if quick else 6
-    reps = 1 if quick else 3           # instantiations (different element subsets) per template
+    reps = 1 if quick else 4           # repetitions with other element subsets
     progs = tlc_programs(run)
     ts = templates()
     for t in ts:
         if t.prog is not None and t.prog not in progs:
             raise MachineryError(f"template {t.tid} names program {t.prog} that OrderOps.tla does not define")
-    instances = []
-    for rep in range(reps):
-        for t in ts:
-            inst = instantiate(t, rng, norders)
-            if rep:
-                if t.pool != "str" or t.n:
-                    continue
-                t2 = T(f"{t.tid}#{rep}", t.body, t.prog, None, t.pool, t.req, t.parse, t.n)
-                inst = Instance(t2, inst.elems, inst.orders, inst.tokens, inst.rankable)
-            instances.append(inst)
-    results, nproc = execute(instances, seeds, legacy_seeds)
-    varying, unsorted, ntrace = judge(run, instances, results, progs, None)
+    batches = make_batches(ts, rng, norders, 6, reps)
+    obs, owner, nproc, cut = observe(batches, seeds, legacy_seeds)
+    varying, unsorted, ntrace = judge(run, obs, owner)
+    flagged = set(varying) | set(unsorted)
 
     # ---- the Site table, derived from what was observed
     sites = sorted({s for p in progs.values() for s in p["sites"]})
@@ -554,16 +669,15 @@ def run(run):
     unobservable = []
     for s in sites:
         if s in direct:
-            table[s] = "raw" if any(tid in varying or tid in unsorted for tid in direct[s]) else "sorted"
+            table[s] = "raw" if any(tid in flagged for tid in direct[s]) else "sorted"
         else:
             table[s] = "raw"
             unobservable.append(s)
     predicted = tlc_predict(run, table, "Order: Site table derived from the observations; which programs can vary")
-    # prediction against observation, per program (drift only)
     seen_by_prog = {}
-    for inst in instances:
-        if inst.t.prog is not None and inst.t.pool == "str":
-            seen_by_prog.setdefault(inst.t.prog, []).append(inst.t.tid in varying or inst.t.tid in unsorted)
+    for t in ts:
+        if t.prog is not None and t.pool == "str":
+            seen_by_prog.setdefault(t.prog, []).append(t.tid in flagged)
     agree = 0
     for pid, flags in sorted(seen_by_prog.items()):
         if (pid in predicted) == any(flags):
@@ -571,26 +685,36 @@ def run(run):
         else:
             run.drift("model-prediction-differs", {"prog": pid, "model_says_can_vary": pid in predicted,
                                                    "observed_varying": any(flags)})
-    # which sites can reach an observable at all (every site raw)
+    # which programs let a raw order through at all (every site raw)
     allraw = tlc_predict(run, {s: "raw" for s in sites}, "Order: every site raw; which programs let the order through")
     masked = sorted(p for p in progs if p not in allraw)
     for s in sites:
         if not any(s in progs[p]["sites"] for p in allraw):
             run.drift("site-never-observable", s)
+    for tid in cut:
+        run.drift("template-cut-off-by-crash-of-an-earlier-one-rerun-alone", tid)
+    for p in MIXED:
+        if mixed_ranks(p) is None:
+            run.drift("language-order-not-total-on-pool", p)
 
-    run.sample({"template": instances[0].t.tid, "script": instances[0].script(instances[0].orders[2][1]),
-                "observation": results[(instances[0].t.tid, False)][(instances[0].orders[2][0], seeds[1])][1]})
+    b0 = batches[0]
+    k0 = (b0.ts[0].tid, b0.bid, False)
+    run.sample({"script": b0.solo_of(b0.ts[0]).script(b0.orders[-1][1]),
+                "observation": obs[k0][(b0.orders[-1][0], seeds[1])][0],
+                "as_ints": to_ints(b0, b0.ts[0], obs[k0][(b0.orders[-1][0], seeds[1])])})
     run.sample({"site_table_observed": table, "assumed_raw_because_not_directly_observable": unobservable})
-    run.sample({"programs_where_raw_order_is_masked": masked})
+    run.sample({"programs_where_a_raw_order_is_masked": masked})
     if predicted:
-        run.sample({"model_counterexamples": list(predicted.values())[:4]})
-    covered = sorted({i.t.prog for i in instances if i.t.prog})
+        run.sample({"model_counterexamples_for_observed_table": list(predicted.values())[:4]})
+    covered = sorted({t.prog for t in ts if t.prog})
     run.cov["traces_validated_against_impl"] = ntrace
-    run.cov["evaluations"] = nproc
-    run.cov["distinct_nontrivial"] = len(instances)
-    run.cov["rule"] = ("one per template instance (enumeration path x element pool); evaluations = fresh interpreter "
-                       "processes; traces = distinct observations of model-covered templates checked by Order_Trace")
+    run.cov["evaluations"] = sum(len(r) for r in obs.values())
+    run.cov["distinct_nontrivial"] = len({(tid, bid) for tid, bid, _ in obs})
+    run.cov["rule"] = ("distinct_nontrivial = template instances (enumeration path x element subset); evaluations = "
+                       "template executions (instance x construction order x hash seed x mode); traces = distinct "
+                       "observations of model-covered templates checked by Order_Trace")
     run.cov["exhaustive"] = False
+    run.cov["processes"] = nproc
     run.cov["templates"] = len(ts)
     run.cov["model_programs"] = len(progs)
     run.cov["model_programs_with_template"] = len(covered)
@@ -598,9 +722,10 @@ def run(run):
     run.cov["sites"] = table
     run.cov["prediction_agreement"] = {"programs": len(seen_by_prog), "agree": agree}
     run.cov["bounds"] = {"hash_seeds": len(seeds), "legacy_hash_seeds": len(legacy_seeds),
-                         "construction_orders": norders, "instances": len(instances), "processes": nproc}
+                         "construction_orders": norders, "scripts": len(batches), "repetitions": reps}
     run.assumptions += [
-        "observation = stdout (printed text, rendered result, error message), stderr and exit status of ckl.run",
+        "observation = the text a template printed (results and error messages are rendered into it); for the "
+        "template that ended the process also stderr and the exit status of ckl.run",
         "a map's `values` enumerated by sorted key (for) or as sorted values (comprehensions, list(m)) both count as sorted order",
         "sorted order of mixed scalars = the language's own `<`; pools on which `<` is not a strict total order are "
         "checked for identical outcomes only",
@@ -610,21 +735,19 @@ def run(run):
 
 
 def replay(run, case):
-    ts = {t.tid: t for t in templates()}
-    tid = case["tid"].split("#")[0]
-    t = ts.get(tid) or T(case["tid"], case["body"], None, None, case.get("pool", "str"))
-    orders = [(o[0], o[1]) for o in case["orders"]]
+    t = T(case["tid"], case["body"], case.get("prog"), None, case.get("pool", "str"), case.get("parse", "tokens"))
+    orders = [(o[0], list(o[1])) for o in case["orders"]]
     if t.pool == "str":
         elems = case["elems"]
         tokens = {KEYW[r - 1]: r for r in elems}
         tokens.update({VALW[val_of(r) - 101]: val_of(r) for r in elems})
-        inst = Instance(t, elems, orders, tokens, True)
+        b = Batch("replay", [t], "str", elems, orders, tokens, True, True)
     else:
-        inst = instantiate(t, random.Random(0), 2)
-        inst.orders = orders
-    progs = tlc_programs(run)
-    seeds = sorted({r["seed"] for r in case["runs"]} | {0, 1, 2, 3})
+        b = make_batch("replay", [t], t.pool, random.Random(0), 2)
+        b.orders = orders
+        b.solo = True
+    seeds = sorted({r["seed"] for r in case["runs"]} | set(range(8)))
     legacy = any(r["legacy"] for r in case["runs"])
-    results, nproc = execute([inst], seeds, seeds if legacy else [])
-    judge(run, [inst], results, progs, None)
+    obs, owner, nproc, _ = observe([b], seeds, seeds if legacy else [])
+    judge(run, obs, owner)
     run.cov["evaluations"] = nproc
